@@ -43,6 +43,10 @@ T['C20'] = dict(engine='E8 lifecycle', technique='property-based testing: Hypoth
   text='Generated search; registration with the latest system only, immediate initialisation of late-created assets, RuntimeError for older systems, find_assets vs list comprehension for 400 filter combinations, and the twin relations: a sub-model of every asset kind created inside an event at T equals (shifted by -T) the same sub-model created before the start; a device created at T downstream of a handler holding a blocked part equals the same line created before the start with its input blocked until T.',
   note='Ids excluded from comparisons; tie-break policies fifo/lifo/const; scheduler objects registered by an event right after creation in both twins.', ref='4 C20')
 
+T['C14'] = dict(engine='E9 repro', technique='property-based testing: metamorphic relations on Hypothesis-generated picklable models (same seed twice with id offset; split vs single run with tie-break stream held fixed; simulate_multiple_times in-process vs worker processes)',
+  text='Generated search over three metamorphic relations with normalised part ids: same seed => identical data/state independent of the id counter; simulate(a);simulate(b) == simulate(a+b) with the tie-break choices held fixed; simulate_multiple_times returns one system per index in order, identical in-process, in 1/2/5/default worker processes and to a direct call.',
+  note='Models use only picklable pieces and never look at asset ids; default names carrying ids (Batch_<id>) are normalised; workers are forked.', ref='4 C14')
+
 
 def e3(text, note, ref, tech):
     return dict(engine='E3 linefuzz', technique='property-based testing: Hypothesis-generated whole production models run through the real event queue under a step monitor; ' + tech,
@@ -119,6 +123,7 @@ def main():
             {'name': 'E6 sched', 'path': 'engines/sched.py', 'serves_properties': ['C18'], 'kind_free_text': 'ActionScheduler vs timetable evaluator'},
             {'name': 'E7 sensors', 'path': 'engines/sensors.py', 'serves_properties': ['C19'], 'kind_free_text': 'sensors vs sampling schedule'},
             {'name': 'E8 lifecycle', 'path': 'engines/lifecycle.py', 'serves_properties': ['C20'], 'kind_free_text': 'late-created vs early-created twins'},
+            {'name': 'E9 repro', 'path': 'engines/repro.py', 'serves_properties': ['C14'], 'kind_free_text': 'metamorphic reproducibility relations'},
             {'name': 'E3 linefuzz', 'path': 'engines/linefuzz.py', 'serves_properties': ['C02', 'C03', 'C05', 'C06', 'C08', 'C11', 'C13', 'C15', 'C16', 'C17'],
              'kind_free_text': 'generated whole production models + step monitor (engines/lf_model.py, lf_monitor.py, e3gen.py)'},
         ],
